@@ -61,23 +61,40 @@ def fn_body(src, header_re):
 
 
 ARM = re.compile(r'"((?:[^"\\]|\\.)*)"\s*=>\s*"((?:[^"\\]|\\.)*)"\s*\.\s*(into|to_string)\(\)\s*,')
-DEFAULT = re.compile(r'\b([a-z_]+)\s*=>\s*\1\s*\.\s*(to_[a-z_]+)\(\)\s*,')
+# default arm: `s => s.to_<case>(),` (table matched on the WIT spelling) or `s => s.into(),` (table matched on the converted name)
+DEFAULT = re.compile(r'\b([a-z_]+)\s*=>\s*\1\s*\.\s*(to_[a-z_]+|into|to_string)\(\)\s*,')
+# scrutinee: `match name {` or `match name.to_<case>().as_str() {`
+SCRUT = re.compile(r'match\s+name\s*(?:\.\s*(to_[a-z_]+)\(\)\s*\.\s*as_str\(\)\s*)?\{')
 
 
 def extract_table(path, fn_name, sig):
+    """returns (arms, conversion, on_converted, fingerprint): `on_converted` = the table is looked up on the
+    case-converted name (`match name.to_snake_case().as_str()`), else on the WIT spelling (`match name`)"""
     src = open(path).read()
     body = fn_body(src, r"(pub\s+)?fn\s+" + fn_name + r"\s*\(")
     clean = strip_comments(body)
     arms = [(m.group(1), m.group(2), m.group(3)) for m in ARM.finditer(clean)]
     d = DEFAULT.search(clean)
-    if not d:
-        raise TranslatorError(f"{fn_name}: default arm `s => s.to_<case>()` not found")
+    sc = SCRUT.search(clean)
+    if not d or not sc:
+        raise TranslatorError(f"{fn_name}: `match name[.to_<case>().as_str()] {{ … s => s.<conv>(), }}` shape not found")
     for k, v, _ in arms:
         if "\\" in k or "\\" in v:
             raise TranslatorError(f"{fn_name}: escape sequences in arm {k!r} are not supported")
+    on_conv = sc.group(1) is not None
+    if on_conv:
+        conv = sc.group(1)
+        if d.group(2) not in ("into", "to_string"):
+            raise TranslatorError(f"{fn_name}: scrutinee is converted with {conv} but the default arm converts again with {d.group(2)}")
+        scrut = f"name.{conv}().as_str()"
+    else:
+        conv = d.group(2)
+        if not conv.startswith("to_") or conv == "to_string":
+            raise TranslatorError(f"{fn_name}: default arm `{d.group(0)}` does not convert the case")
+        scrut = "name"
     # round trip: re-print and compare modulo whitespace
     pub = "pub " if re.match(r"pub\s", body) else ""
-    printed = f"{pub}fn {fn_name}{sig} {{ match name {{ " + " ".join(f'"{k}" => "{v}".{conv}(),' for k, v, conv in arms) \
+    printed = f"{pub}fn {fn_name}{sig} {{ match {scrut} {{ " + " ".join(f'"{k}" => "{v}".{c}(),' for k, v, c in arms) \
         + f" {d.group(1)} => {d.group(1)}.{d.group(2)}(), }} }}"
     norm = lambda s: re.sub(r"\s+", "", s)
     if norm(printed) != norm(clean):
@@ -88,7 +105,7 @@ def extract_table(path, fn_name, sig):
     if len(set(keys)) != len(keys):
         raise TranslatorError(f"{fn_name}: duplicate arm")
     fp = hashlib.sha256(norm(clean).encode()).hexdigest()[:16]
-    return [(k, v) for k, v, _ in arms], d.group(2), fp
+    return [(k, v) for k, v, _ in arms], conv, on_conv, fp
 
 
 def string_literals(src):
@@ -182,6 +199,10 @@ def lean_pairs(name, pairs, doc):
     return f"/-- {doc} -/\ndef {name} : List (List Char × List Char) := [\n  {body}]\n"
 
 
+def lean_bool(name, b, doc):
+    return f"/-- {doc} -/\ndef {name} : Bool := {'true' if b else 'false'}\n"
+
+
 def lean_list(name, items, doc):
     body = ", ".join(f"{lean_str(k)}.toList" for k in items)
     return f"/-- {doc} -/\ndef {name} : List (List Char) := [\n  {body}]\n"
@@ -191,8 +212,10 @@ def generate(repo):
     info = {}
     # ---------------- Rust
     rs = os.path.join(repo, "crates/rust/src")
-    rt, rdef, rfp = extract_table(os.path.join(rs, "lib.rs"), "to_rust_ident", "(name: &str) -> String")
-    ct, cdef, cfp = extract_table(os.path.join(rs, "lib.rs"), "to_upper_camel_case", "(name: &str) -> String")
+    rt, rdef, ron, rfp = extract_table(os.path.join(rs, "lib.rs"), "to_rust_ident", "(name: &str) -> String")
+    ct, cdef, con, cfp = extract_table(os.path.join(rs, "lib.rs"), "to_upper_camel_case", "(name: &str) -> String")
+    if con:
+        raise TranslatorError("to_upper_camel_case: lookup on the converted name is not modelled")
     if rdef != "to_snake_case" or cdef != "to_upper_camel_case":
         raise TranslatorError(f"unexpected default conversions {rdef}, {cdef}")
     rbases, rfixed, lfp = extract_locals([os.path.join(rs, f) for f in ("bindgen.rs", "interface.rs")])
@@ -202,21 +225,22 @@ def generate(repo):
         "/-! GENERATED by tools/gen_ident_tables.py — do not edit.  Regenerated from /repo's working tree on every\n"
         f"`./check C09` run.  Source fingerprints: to_rust_ident {rfp}, to_upper_camel_case {cfp}, template literals {lfp}. -/\n"
         "namespace Witverif.Generated.RustIdent\n\n"
-        + lean_pairs("escapeTable", rt, "the literal arms of `to_rust_ident` (crates/rust/src/lib.rs); every other name goes through `to_snake_case`")
+        + lean_bool("matchOnSnake", ron, "`true`: the table is looked up on the snake-cased name (`match name.to_snake_case().as_str()`); `false`: on the WIT spelling (`match name`)")
+        + "\n" + lean_pairs("escapeTable", rt, "the literal arms of `to_rust_ident` (crates/rust/src/lib.rs); every other name goes through `to_snake_case`")
         + "\n" + lean_pairs("camelTable", ct, "the literal arms of `to_upper_camel_case` (crates/rust/src/lib.rs); every other name goes through heck's `to_upper_camel_case`")
         + "\n" + lean_list("tempBases", rbases, "locals the generator names `<base><counter>` (optionally `_<index>`): bound by `let` in the code templates of bindgen.rs / interface.rs or pushed as operands")
         + "\n" + lean_list("fixedLocals", rfixed, "locals with a fixed name bound by `let` in the code templates of bindgen.rs / interface.rs")
         + "\n" + lean_list("unqualifiedPrelude", runq, "Rust prelude names that the code templates of crates/rust/src use WITHOUT a `::core::…` path: a user type with that name in the same module captures them")
         + "\n" + lean_list("generatedFnNames", rfns, "functions the code templates of interface.rs / lib.rs define by a fixed name (inherent methods of resource wrappers, trait items, helpers)")
         + "\nend Witverif.Generated.RustIdent\n")
-    info["rust"] = {"escape_arms": len(rt), "camel_arms": len(ct), "temp_bases": rbases, "fixed_locals": len(rfixed), "unqualified_prelude": runq, "generated_fn_names": rfns,
+    info["rust"] = {"match_on_snake": ron, "escape_arms": len(rt), "camel_arms": len(ct), "temp_bases": rbases, "fixed_locals": len(rfixed), "unqualified_prelude": runq, "generated_fn_names": rfns,
                     "fingerprints": {"to_rust_ident": rfp, "to_upper_camel_case": cfp, "templates": lfp}}
     # ---------------- C / C++
     cc = os.path.join(repo, "crates/c/src/lib.rs")
     cpp = os.path.join(repo, "crates/cpp/src/lib.rs")
     if not re.search(r"use\s+wit_bindgen_c::(\{[^}]*\bto_c_ident\b[^}]*\}|to_c_ident)\s*;", open(cpp).read()):
         raise TranslatorError("crates/cpp/src/lib.rs no longer imports wit_bindgen_c::to_c_ident")
-    tt, tdef, tfp = extract_table(cc, "to_c_ident", "(name: &str) -> String")
+    tt, tdef, ton, tfp = extract_table(cc, "to_c_ident", "(name: &str) -> String")
     if tdef != "to_snake_case":
         raise TranslatorError(f"unexpected default conversion {tdef}")
     pbases, pfixed, pfp = extract_locals([cpp])
@@ -224,11 +248,12 @@ def generate(repo):
         "/-! GENERATED by tools/gen_ident_tables.py — do not edit.  Regenerated from /repo's working tree on every\n"
         f"`./check C31` run.  Source fingerprints: to_c_ident {tfp}, crates/cpp template literals {pfp}. -/\n"
         "namespace Witverif.Generated.CppIdent\n\n"
-        + lean_pairs("escapeTable", tt, "the literal arms of `to_c_ident` (crates/c/src/lib.rs, imported by crates/cpp/src/lib.rs); every other name goes through `to_snake_case`")
+        + lean_bool("matchOnSnake", ton, "`true`: the table is looked up on the snake-cased name; `false`: on the WIT spelling")
+        + "\n" + lean_pairs("escapeTable", tt, "the literal arms of `to_c_ident` (crates/c/src/lib.rs, imported by crates/cpp/src/lib.rs); every other name goes through `to_snake_case`")
         + "\n" + lean_list("tempBases", pbases, "locals the C++ generator names `<base><counter>`: bound in the code templates of crates/cpp/src/lib.rs")
         + "\n" + lean_list("fixedLocals", pfixed, "locals with a fixed name declared by `let`-free templates are not inventoried for C++; names bound by `auto`/typed declarations are found by the validation run only")
         + "\nend Witverif.Generated.CppIdent\n")
-    info["cpp"] = {"escape_arms": len(tt), "temp_bases": pbases, "fingerprints": {"to_c_ident": tfp, "templates": pfp}}
+    info["cpp"] = {"match_on_snake": ton, "escape_arms": len(tt), "temp_bases": pbases, "fingerprints": {"to_c_ident": tfp, "templates": pfp}}
     return {"RustIdent.lean": rust, "CppIdent.lean": cppl}, info
 
 
